@@ -243,6 +243,48 @@ Lemma root_spelling :
   analyze (L "src") [NDir (L "target") w_layout1; NDir (L "a") [NDir (L ".git") w_layout1]] = [].
 Proof. vm_compute. split; reflexivity. Qed.
 
+(* ------------------------------------------------------------------ build-script histories *)
+Lemma list_eqb_eq {A} (e : A -> A -> bool) (He : forall x y, e x y = true -> x = y) l1 l2 :
+  list_eqb e l1 l2 = true -> l1 = l2.
+Proof. revert l2. induction l1 as [|x r IH]; intros [|y r2]; cbn [list_eqb]; try discriminate; [reflexivity|].
+  intros H. apply andb_true_iff in H as [H1 H2]. f_equal; [apply He, H1|apply IH, H2]. Qed.
+
+Lemma obs4_eqb_eq a b : obs4_eqb a b = true -> a = b.
+Proof. destruct a as [[[n1 p1] r1] a1], b as [[[n2 p2] r2] a2]. unfold obs4_eqb.
+  rewrite !andb_true_iff. intros [[[H1 H2] H3] H4].
+  apply str_eqb_eq in H1, H2, H3. apply Bool.eqb_prop in H4. subst. reflexivity. Qed.
+
+(* the wrapper of a command is a function of its CommandInfo fields *)
+Lemma wobs_of_obs root c1 c2 : cmd_obs root c1 = cmd_obs root c2 ->
+  wobs {| w_invoke := unraw (fn_name (c_fn c1)); w_ret := promise_of (c_fn c1) |}
+  = wobs {| w_invoke := unraw (fn_name (c_fn c2)); w_ret := promise_of (c_fn c2) |}.
+Proof. unfold cmd_obs, wobs, promise_of, rt_ret_ts. cbn [w_invoke w_ret]. intros [= Hn _ Hr _].
+  rewrite Hn, Hr. reflexivity. Qed.
+
+Lemma cache_hit_same root p cs : cache_hit root p cs = true -> map wobs (emit p) = map wobs (emit cs).
+Proof. unfold cache_hit. intros H. apply (list_eqb_eq _ obs4_eqb_eq) in H.
+  revert cs H. induction p as [|c1 r IH]; intros [|c2 r2] H; try discriminate; [reflexivity|].
+  cbn [map] in H. pose proof (f_equal (hd (cmd_obs root c1)) H) as H1. pose proof (f_equal (@tl _) H) as H2.
+  cbn [hd tl] in H1, H2.
+  unfold emit. cbn [map]. f_equal.
+  - apply (wobs_of_obs root). exact H1.
+  - apply IH. exact H2. Qed.
+
+Lemma build_run_obs root st l :
+  map wobs (commands_ts (build_run root st l)) = map wobs (emit (analyze root l)).
+Proof. unfold build_run. destruct (analyze root l) as [|c cs] eqn:E; [reflexivity|].
+  destruct st as [p|]; [|reflexivity]. destruct (cache_hit root p (c :: cs)) eqn:Eh; [|reflexivity].
+  cbn [commands_ts]. apply (cache_hit_same root). exact Eh. Qed.
+
+(* after EVERY run of a history (any previous state of the output directory) *)
+Theorem build_history_spec root ls : forall st,
+  Forall (fun l => layout_ok l = true) ls ->
+  map (map wobs) (build_history root st ls) = map (fun l => map spec_obs (annotated_spec l)) ls.
+Proof. induction ls as [|l r IH]; intros st Hok; [reflexivity|].
+  inversion Hok as [|? ? Hl Hr]; subst. cbn [build_history map]. f_equal.
+  - rewrite build_run_obs. apply bijection_walk_order. exact Hl.
+  - apply IH. exact Hr. Qed.
+
 (* ------------------------------------------------------------------ the oracle *)
 Lemma pair_eqb_eq a b : pair_eqb a b = true <-> a = b.
 Proof. unfold pair_eqb. rewrite andb_true_iff, !str_eqb_eq. destruct a, b; cbn [fst snd]. split.
